@@ -97,7 +97,9 @@ class Check:
         self.meta = evidence_meta or {}
         self.extra_job = extra_job or {}
         self.seed = int(os.environ.get("VERIF_SEED", common.DEFAULT_SEED))
-        self.crash_is_violation = prop == "C17"      # "the interpreter never crashes" is C17's own clause
+        # "the interpreter never crashes" is C17's own clause; a call that kills the interpreter also fails to "return exactly
+        # num_anneals results" (C11)
+        self.crash_is_violation = prop in ("C17", "C11")
         self.lines = []
 
     def say(self, s):
@@ -515,7 +517,7 @@ def replay_file(path):
                     out = call_worker(build, {"mode": "replay", "replay": rec, "hang_s": 120}, rec.get("hashseed", 0), 150, tmpdir, "rp")
             except WorkerCrash as e:
                 class _C:
-                    crash_is_violation = rec.get("property") == "C17"
+                    crash_is_violation = rec.get("property") in ("C17", "C11")
                 if is_fatal(_C, e):
                     print("VIOLATION property=%s replay=%s" % (rec["property"], path))
                     print("  " + san_summary(e.output))
